@@ -67,7 +67,7 @@ def _variants(prop, case):
                  "repack": bool(h & 128), "pre_w": [0, 1, 2, 3][(h // 256) % 4], "npw": [None, "i8", "i4", "u1"][(h // 1024) % 4],
                  "idxdt": ["i8", "u1", "i2", "u2"][(h // 4096) % 4]}]
     if op.startswith("dc_"):
-        x = {"listmask": bool(h & 1), "npint": bool(h & 2), "firstdt": [None, "u1", "i2"][(h // 4) % 3]}
+        x = {"listmask": bool(h & 1), "npint": bool(h & 2), "firstdt": [None, "u1", "i2"][(h // 4) % 3], "layout": ["C", "F", "T", "mixed"][(h // 16) % 4]}
         return [dict(x), dict(x, inherit=True)] if len(case[1][0] if op != "dc_concat" else case[1][0][0]) > 1 else [x]
     if op == "rl_roundtrip":
         return [{"input": ["array", "list"][h % 2], "conv": ["asarray", "array"][(h // 2) % 2]}]
@@ -82,12 +82,13 @@ def _variants(prop, case):
     if op == "rl_concat":
         return [{"via": "from_array"}, {"via": RLV[1 + (h // 4) % 7]}]
     OV = ["rev", "tail", "perm", "mask"]
+    RAV = ["rows", "rowview", "listview", "revview", "colview", "stepview", "ufunc", "flat"][(h // 8) % 8]
     if op == "rl2_getitem":
-        return [{"tuple1": bool(h & 1)}, {"tuple1": bool(h & 1), "objvia": OV[(h // 2) % 4]}]
+        return [{"tuple1": bool(h & 1)}, {"tuple1": bool(h & 1), "objvia": OV[(h // 2) % 4], "ravia": RAV}]
     if op == "rl2_func":
-        return [{"how": ["method", "np"][h % 2]}, {"how": ["method", "np"][h % 2], "objvia": OV[(h // 2) % 4]}]
+        return [{"how": ["method", "np"][h % 2]}, {"how": ["method", "np"][h % 2], "objvia": OV[(h // 2) % 4], "ravia": RAV}]
     if op in ("rl2_ufunc", "rl2_concat"):
-        return [{}, {"objvia": OV[(h // 2) % 4]}]
+        return [{}, {"objvia": OV[(h // 2) % 4], "ravia": RAV}]
     return [{}]
 
 
